@@ -485,6 +485,9 @@ def t_equality():
 	conts = [
 		('empty', []), ('one-empty-sig', [[]]), ('A', [[1, 2]]), ('A-u4', [[1, 2]]), ('B', [[1, 3]]), ('A,B', [[1, 2], [1, 3]]), ('B,A', [[1, 3], [1, 2]]),
 		('A,empty', [[1, 2], []]), ('A,A', [[1, 2], [1, 2]]), ('prefix', [[1]]),
+		# same number of signatures and the same concatenated values, different boundaries
+		('split-12|3', [[1, 2], [3]]), ('split-1|23', [[1], [2, 3]]), ('split-|123', [[], [1, 2, 3]]), ('split-123|', [[1, 2, 3], []]),
+		('three-a', [[1, 5, 9], [2, 7], [], [3, 4]]), ('three-b', [[1, 5], [9], [2, 7], [3, 4]]),
 	]
 	objs = []
 	with fixtures.workdir('c20eq') as d:
